@@ -29,10 +29,14 @@ ROWS = {
     "cycle": "{% cycle 'a' 'b' %}",
     "var": "<{{ v }}>",
     "include_leaf": "({% include 'c10c_leaf.html' %})",
+    # the template extends a base AND includes itself once (the comment-thread idiom): the inner include is a stock render of the
+    # very Template object the component is being rendered with
+    "recursive_extends": "{% extends 'c10c_rbase.html' %}{% block rb %}<{{ v }}{% if not inner %}{% with inner=1 %}{% include 'c10c_row.html' %}{% endwith %}{% endif %}>{% endblock %}",
 }
 TEMPLATES = {
     "c10c_leaf.html": "{% cycle 'x' 'y' %}",
     "c10c_base.html": "[{% block b %}{% endblock %}|{% block tail %}t{% endblock %}]",
+    "c10c_rbase.html": "({% block rb %}{% endblock %})",
     "c10c_S1.html": "{% for i in '123' %}{% include 'c10c_row.html' %}{% endfor %}",
     "c10c_S2.html": "{% extends 'c10c_base.html' %}{% block b %}{% include 'c10c_row.html' %}{% include 'c10c_row.html' %}{% endblock %}",
     "c10c_K1.html": "{% component 'c10c_rowc' / %}{% component 'c10c_rowc' / %}",
@@ -101,6 +105,22 @@ def history_task(arg):
         fresh(row)
         solo[op] = do(op)
     failures, n, tr, outs = [], 0, 0, set()
+    # absolute anchor for the solo results of the component ops: a component whose template is named by get_template_name()
+    # renders that template with its own data - K3 (one Python render) = the stock render of row.html with that data, K1 = twice that
+    from django.template.loader import get_template
+
+    fresh(row)
+    try:
+        stock_row = ("ok", strip_markers(get_template("c10c_row.html").render({"v": "K"})))
+    except Exception as e:  # noqa
+        stock_row = ("err", type(e).__name__, str(e)[:200])
+    if stock_row[0] == "ok":
+        for op, want in (("K3", stock_row[1]), ("K1", stock_row[1] * 2)):
+            tr += 1
+            if solo[op] != ("ok", want):
+                failures.append((f"shared:{mode}:component-op-differs-from-stock-render:{op}:row={row}",
+                                 f"[{mode}, row.html = {ROWS[row]!r}] {op} as the first operation gives {solo[op]}; the stock render of row.html with the component's data gives {want!r}",
+                                 {"part": "shared", "mode": mode, "row": row, "history": [op]}))
     for L in range(2, maxlen + 1):
         for seq_ in itertools.product(OPS, repeat=L):
             n += 1
@@ -133,8 +153,8 @@ def run_part(ctx):
         n += n1
         tr += tr1
         outs += nouts
-        if solo["S1"][0] != "ok" or solo["K1"][0] != "ok":
-            raise par.HarnessError(f"part (c): solo renders fail: {solo}")
+        if solo["S1"][0] != "ok":  # a failing solo render of a COMPONENT op is judged by the stock anchor in history_task
+            raise par.HarnessError(f"part (c): the stock solo render fails: {solo}")
         ctx.fnd.merge_reports(sorted(failures, key=lambda f: (len(f[2]["history"]), f[0])))
     ctx.ev.add_part("shared_template_histories", states=n, transitions=tr, validated=tr, nontrivial=n, observed_distinct=outs,
                     bound={"ops": list(OPS), "max_len": maxlen, "row_variants": list(ROWS), "modes": 2, "loader": "cached.Loader(locmem)"},
